@@ -119,6 +119,43 @@ theorem account_rename_crash_safe {α : Type} (deser : Bytes → Option α) (fs 
   · left; simp [loadAccounts, h1]
   · right; simp [loadAccounts, h1]
 
+/-- `Update` as the code runs it now (all three cases: same login, rename onto a free login, rename onto an
+    existing login = refused before any call): every crash state loads as the value before the update or as
+    the value after the completed program. -/
+theorem account_update_total_crash_safe {α : Type} (deser : Bytes → Option α) (fs : FS) (old new : Name) (d : Bytes)
+    (hold : get fs (acctFile old) ≠ none) (k : Nat) :
+    loadAccounts deser (crash (updateProg acctTmp fs (acctFile old) (acctFile new) d) k fs) = loadAccounts deser fs ∨
+    loadAccounts deser (crash (updateProg acctTmp fs (acctFile old) (acctFile new) d) k fs) =
+      loadAccounts deser (crash (updateProg acctTmp fs (acctFile old) (acctFile new) d)
+        (updateProg acctTmp fs (acctFile old) (acctFile new) d).length fs) := by
+  unfold updateProg
+  by_cases hsame : acctFile old = acctFile new
+  · simp only [hsame, if_true]
+    have hex : get fs (acctFile new) ≠ none := hsame ▸ hold
+    have hl : (tempRename acctTmp (acctFile new) d).length = 4 := by simp [tempRename, writeFile]
+    have h := account_update_crash_safe deser fs new d hex k
+    have hfin := (account_update_crash_safe deser fs new d hex 4).2 (by omega)
+    rw [hl, hfin]
+    exact h.1
+  · simp only [hsame, if_false]
+    cases hn : get fs (acctFile new) with
+    | some c => left; simp [crash]
+    | none =>
+      simp only [Option.isSome_none, Bool.false_eq_true, if_false]
+      have hl : (renameUpdate acctTmp (acctFile old) (acctFile new) d).length = 5 := by
+        simp [renameUpdate, tempRename, writeFile]
+      have h := account_rename_crash_safe deser fs old new d hsame hold hn k
+      have hfin := (account_rename_crash_safe deser fs old new d hsame hold hn 5).2 (by omega)
+      rw [hl, hfin]
+      exact h.1
+
+/-- A rename onto an existing login makes no system call at all: the directory is untouched. -/
+theorem rename_onto_existing_refused (fs : FS) (old new : Name) (d : Bytes) (k : Nat)
+    (hne : acctFile old ≠ acctFile new) (hex : get fs (acctFile new) ≠ none) :
+    crash (updateProg acctTmp fs (acctFile old) (acctFile new) d) k fs = fs := by
+  obtain ⟨c, hc⟩ := Option.ne_none_iff_exists'.mp hex
+  simp [updateProg, hne, hc, crash]
+
 /-- Account deletion is one call: before it the old set, after it the set without the file. -/
 theorem account_delete_crash_safe {α : Type} (deser : Bytes → Option α) (fs : FS) (login : Name) (k : Nat) :
     loadAccounts deser (crash [.remove (acctFile login)] k fs) = loadAccounts deser fs ∨
@@ -175,6 +212,20 @@ theorem old_board_write_torn (fs : FS) (p : Name) (new : Bytes) :
   · rw [h4]; exact (tempRename_get fs (tmpOf p) p new (append_tmp_ne p) 4).2.1 (by omega)
   · rw [h5]; simp [crash, directWrite, writeFile, apply, get_set_eq]
 
+/-- NEGATIVE WITNESS for the hypothesis `hnew` of `account_rename_crash_safe` (the new login must be free):
+    `Update` does not check it, and renaming account `a` onto an EXISTING login `b` first renames `a.yaml` over
+    `b.yaml`.  A kill right after that call leaves `b`'s account destroyed while `a` is still the old `a` –
+    neither the old set `{a, b}` nor the new set `{b := a'}`.  This was the behaviour before
+    `fix: 5d2c023` (Update now refuses such a rename before any call, see `rename_onto_existing_refused` and the
+    obligation `rename_guarded`); the harness generates the case and monitors it (`rename-onto-existing-login`). -/
+theorem rename_onto_existing_login_torn :
+    ∃ (fs : FS) (old new : Name) (d : Bytes) (k : Nat),
+      get fs (acctFile new) ≠ none ∧
+      contents isYaml (crash (renameUpdate acctTmp (acctFile old) (acctFile new) d) k fs) ≠ contents isYaml fs ∧
+      contents isYaml (crash (renameUpdate acctTmp (acctFile old) (acctFile new) d) k fs) ≠
+        contents isYaml (crash (renameUpdate acctTmp (acctFile old) (acctFile new) d) 5 fs) :=
+  ⟨[("a.yaml".toList, [1]), ("b.yaml".toList, [2])], "a".toList, "b".toList, [9], 1, by decide, by decide, by decide⟩
+
 /-! Obligations over the os-call lists regenerated from /repo's source on every run. -/
 
 /-- Source expressions that denote a temp name: `<live file> + ".tmp"` or `Join(dir, ".account.tmp")`. -/
@@ -210,6 +261,12 @@ theorem persist_programs :
          ("Rename", "filepath.Join(am.accountDir, \".account.tmp\")",
             "filepath.Join(am.accountDir, path.Join(\"/\", newLogin) + \".yaml\")", "")])] := by
   decide
+
+/-- The rename in `Update` is reached only when the new login is not in the account table (the early return
+    `if _, exists := am.accounts[newLogin]; exists { return … }` precedes it in its block). -/
+theorem rename_guarded :
+    Generated.persistGuards.lookup "mobius.YAMLAccountManager.Update" =
+      some ["_, exists := am.accounts[newLogin]; exists", "", ""] := by decide
 
 /-- No other function of internal/mobius creates, writes, renames, links or removes files (a new
     persistent update path would show up here). -/
